@@ -149,6 +149,7 @@ def project_system(system: Any) -> Dict[str, Any]:
             "inall": system.allobjects.get(o.fullName()) is o,
             "doc": any(s.docstring is not None for s in o.docsources()),
             "docsrc": next((s.fullName() for s in o.docsources() if s.docstring is not None), o.fullName()),
+            "module": o.module.fullName() if getattr(o, "parentMod", None) is not None or isinstance(o, model.Module) else "auto",
             "initial": o.name[0].upper(), "dupname": " " in o.name, "dupfull": " " in o.fullName(),
             "bases": [], "mro": [], "subclasses": [],
         }
@@ -443,6 +444,16 @@ def _entries(soup: Any, page: str, site: Dict[str, Any], indexpage: bool = False
                 site["entries"].append({"page": page, "kind": "detail", "file": page, "frag": short,
                                         "private": _has_private(div), "under_private": under_private(div)})
     for sb in soup.find_all("nav", class_="sidebar"):
+        for tt in sb.find_all("div", class_="thingTitle"):       # section titles: "<kind> <name>", the name linked or not
+            a = _first_link(tt)
+            if a is not None:
+                add("sidebarTitle", a, False, under_private(tt))
+            else:
+                span, code = tt.find("span"), tt.find("code")
+                if span is not None and code is not None and code.get_text().strip():
+                    site["entries"].append({"page": page, "kind": "sidebarTitle", "file": "", "frag": "",
+                                            "ref": "title:%s:%s" % (span.get_text().strip(), code.get_text().strip()),
+                                            "private": False, "under_private": under_private(tt)})
         for li in sb.find_all("li"):
             item = li.find("div", class_="itemName")
             if item is None or item.find_parent("li") is not li:
